@@ -294,6 +294,35 @@ def run(ctx, model_ok):
     tie.report_disagreements(ctx, [d for d in dis if d[0] not in explained], "error_sites")
     for k in (len(cases) // 3, len(cases) * 2 // 3):
         ctx.sample({"case": str(cases[k][0]), "src": cases[k][1][-400:], "impl_stderr": impl[k]["stderr"]})
+    # positions count characters: multi-byte text earlier on the line of the failing construct and of each call
+    import lib_syntax as LS
+    marked = [
+        'fn f1() {\n    s := "é€😀"; t := «0»zz_undefined\n    return 0\n}\nw := "é😀€"; «1»f1()\n',
+        'fn f2() {\n    return 1 «0»+ "é"\n}\nfn f1() {\n    q := "ß"; r := «1»f2()\n    return r\n}\n# é€\nu := ["😀", «2»f1()]\n',
+        'o := {"m": fn () {\n    k := "日本"; [a, b] «9»:= [1]\n}}\nv := "é"; «0»o.m()\n',
+    ]
+    for text in marked:
+        marks, clean = {}, ""
+        i = 0
+        while i < len(text):
+            if text[i] == "«":
+                marks[int(text[i + 1])] = len(clean)
+                i += 3
+            else:
+                clean += text[i]
+                i += 1
+        r = core.run_cli(clean)
+        ctx.count("positions_after_multibyte:cli", 1)
+        ctx.nontrivial(("multibyte-positions", clean[:30]))
+        m = FIRST.match(r["stderr"])
+        got = [(int(m.group(1)), int(m.group(2)))] if m else []
+        got += [(int(a), int(b)) for a, b, _ in TRACE.findall(r["stderr"])]
+        want = [LS.pos_of(clean, marks[k]) for k in sorted(marks) if k != 9]
+        if 9 in marks:          # the failing construct is a statement: its position is not pinned here, the call positions are
+            got, want = got[1:], want
+        if r["status"] != "103" or got != want:
+            ctx.violation(f"positions after multi-byte text: the diagnostic and its stack trace give {got}, the constructs are at {want} "
+                          f"(columns count characters)", clean, {"cli": r})
     # lexical and parse errors + successful scripts: generic grammar
     fe = gens.unterminated() + gens.mutations(gens.seed_programs(), ctx.rng, per=3 if ctx.tier == "quick" else 40)
     # only inputs the front end rejects (a mutated program that still parses may loop forever)
